@@ -79,7 +79,8 @@ def _run_round(desc):
             if dt != np.uint32:
                 ok = True
                 # a mask is "everything > 0": 0/1, bool and other positive flag values select the same pixels
-                for flavour, mk in (("int8 0/1", mask.astype(np.int8)), ("bool", mask.copy()), ("int8 0/7", (mask * 7).astype(np.int8)),
+                for flavour, mk in (("int8 0/1", mask.astype(np.int8)), ("bool", mask.copy()), ("int16 0/1", mask.astype(np.int16)), ("int32 0/300", (mask * 300).astype(np.int32)),
+                                    ("int64 0/1", mask.astype(np.int64)), ("uint8 0/255", (mask * 255).astype(np.uint8)), ("int8 0/7", (mask * 7).astype(np.int8)),
                                     ("int8 0/127", (mask * 127).astype(np.int8)), ("int8 mixed", (mask * (1 + (np.arange(n).reshape(shp) % 5))).astype(np.int8))):
                     mk_in = mk.copy()
                     spf = sf.from_data_mask(mk, data, {"threshold": 1})
@@ -182,16 +183,24 @@ def _run_sort(desc):
     _, k = desc
     from ImageD11 import sparseframe as sf, cImageD11 as cI
     sh = Shard()
-    shp = (3, 4)
-    cells = [(0, 0), (0, 3), (1, 1), (1, 2), (2, 0), (2, 3), (0, 1), (2, 2)][:k]
+    for shp, allcells in (((3, 4), [(0, 0), (0, 3), (1, 1), (1, 2), (2, 0), (2, 3), (0, 1), (2, 2)]),
+                          # a frame much wider than high (pixels at columns beyond the number of rows) and a tall one
+                          ((3, 40), [(0, 0), (0, 39), (1, 1), (1, 38), (2, 0), (2, 17), (0, 5), (2, 2)]),
+                          ((40, 3), [(0, 0), (39, 2), (1, 1), (38, 0), (2, 0), (17, 2), (5, 1), (2, 2)])):
+        _sort_shape(sh, sf, cI, shp, allcells[:k], k)
+    sh.outcomes.add(k)
+    return sh
+
+
+def _sort_shape(sh, sf, cI, shp, cells, k):
     cells_sorted = sorted(cells)
     for perm in itertools.permutations(range(k)):
         order = [cells_sorted[p] for p in perm]
         row = np.array([c[0] for c in order], np.uint16)
         col = np.array([c[1] for c in order], np.uint16)
         inten = np.array([10.0 * c[0] + c[1] + 0.5 for c in order], np.float32)
-        lab = np.array([c[0] * 4 + c[1] for c in order], np.int32)
-        case = {"kind": "sort", "cells": [list(c) for c in order]}
+        lab = np.array([c[0] * shp[1] + c[1] for c in order], np.int32)
+        case = {"kind": "sort", "shape": list(shp), "cells": [list(c) for c in order]}
         for method in ("sort", "sort_by", "from_data_mask,reorder,sort", "sort,reorder,sort", "sort_by(descending key),sort"):
             fr = sf.sparse_frame(row.copy(), col.copy(), shp, pixels={"intensity": inten.copy(), "lab": lab.copy()})
             try:
@@ -208,7 +217,7 @@ def _run_sort(desc):
                     for c in cells_sorted:
                         img[c] = 10.0 * c[0] + c[1] + 0.5
                     fr = sf.from_data_mask(img > 0, img, {})
-                    fr.set_pixels("lab", np.array([c[0] * 4 + c[1] for c in cells_sorted], np.int32))
+                    fr.set_pixels("lab", np.array([c[0] * shp[1] + c[1] for c in cells_sorted], np.int32))
                     fr.reorder(np.array(perm))
                     fr.sort()
                 elif method == "sort,reorder,sort":
@@ -227,7 +236,7 @@ def _run_sort(desc):
                 sh.violation("sparse_frame.%s:order" % method, dict(case, method=method), {"row": fr.row, "col": fr.col})
                 continue
             wi = np.array([10.0 * c[0] + c[1] + 0.5 for c in cells_sorted], np.float32)
-            wl = np.array([c[0] * 4 + c[1] for c in cells_sorted], np.int32)
+            wl = np.array([c[0] * shp[1] + c[1] for c in cells_sorted], np.int32)
             if not (np.array_equal(fr.pixels["intensity"], wi) and np.array_equal(fr.pixels["lab"], wl)):
                 sh.violation("sparse_frame.%s:values-detached" % method, dict(case, method=method),
                              {"intensity": fr.pixels["intensity"], "lab": fr.pixels["lab"]})
@@ -238,8 +247,6 @@ def _run_sort(desc):
         if list(perm) != sorted(perm):
             sh.nontrivial += 1
     sh.sample(case, limit=1)
-    sh.outcomes.add(k)
-    return sh
 
 
 # --------------------------------------------------------------------------------------------- edges
